@@ -390,12 +390,14 @@ def judge(run: Run, sc: Path, modules: list, results: dict, refs: dict) -> None:
             ev.append({"ev": "observe", "b": "", "lo": 0, "hi": 0, "m": midx[m], "ok": True, "loaded": [],
                        "fp": 1 if diffs else 0})
             run.count(f"{m}@{hid.split(':')[0]}")
-        traces.append({"tid": len(traces), "hid": hid, "ev": ev})       # short tids: TLC wraps long printed tuples
+        traces.append({"tid": len(traces), "hid": hid, "ev": ev,
+                       "named": idtrace.clash_candidates([(b, i) for b, i, _o in r["events"]])})       # short tids: TLC wraps long printed tuples
         details[hid] = det
     f = sc / "histories_trace.json"
     f.write_text(json.dumps({"traces": traces, "nmods": len(modules)}))
     cfg = write_cfg(sc / "histories_trace.cfg", init="TraceInit", next_="TraceNext",
-                    constants=dict(NULL, World="<- TraceWorld", Bumps=set(), MaxHist=0), invariants=["Done", "Illegal"])
+                    constants=dict(NULL, World="<- TraceWorld", Bumps=set(), MaxHist=0),
+                    invariants=["Done", "Illegal", "NameClash"])
     res = run_tlc("HistoriesTrace", cfg, sc, workers=1, env={"TRACE_FILE": str(f)}, allow_violation=False, timeout=3000)
     run.add_tlc(res, f"trace validation (HistoriesTrace): {len(traces)} replayed histories, "
                      f"{sum(len(t['ev']) for t in traces)} events")
@@ -406,6 +408,15 @@ def judge(run: Run, sc: Path, modules: list, results: dict, refs: dict) -> None:
             done.add(v[1])
         elif v[0] == "ILLEGAL":
             illegal.append(v[1:])
+        elif v[0] == "CLASH":
+            t = traces[v[1]]
+            a, b = t["named"][v[2] - 1], t["named"][v[3] - 1]
+            r = results[t["hid"]]
+            run.violation(f"alias:{a['b']}{a['id']}",
+                          f"history {t['hid']}: the generated name {a['b']}{a['id']} is built twice - from prefix {a['b']!r} "
+                          f"id {a['id']} and from prefix {b['b']!r} id {b['id']}: two objects created by different code "
+                          f"share their internal name in this history (NoAlias of Symbols.tla)",
+                          {"history": r["spec"], "hashseed": r["hashseed_used"], "events": [a, b]})
     rank = {"iso": 0, "iso-shifted": 1, "iso-hashseed7": 2, "canon": 3, "cat": 4}
     # report each defect with the simplest history that shows it
     illegal = sorted(((traces[x[0]]["hid"], x[1], x[2]) for x in illegal),
@@ -452,14 +463,17 @@ def selftest(run: Run, sc: Path) -> None:
           dict(z, ev="import", m=4, loaded=[2, 4]),                       # 5: module 2 loaded twice
           dict(z, ev="observe", m=1, fp=0), dict(z, ev="observe", m=2, fp=1)]       # 7: deviates
     f = sc / "selftest_trace.json"
-    f.write_text(json.dumps({"traces": [{"tid": 0, "ev": ev}], "nmods": 4}))
+    f.write_text(json.dumps({"traces": [{"tid": 0, "ev": ev, "named": [{"b": "m", "id": 11}, {"b": "m1", "id": 1}]}], "nmods": 4}))
     cfg = write_cfg(sc / "selftest_trace.cfg", init="TraceInit", next_="TraceNext",
-                    constants=dict(NULL, World="<- TraceWorld", Bumps=set(), MaxHist=0), invariants=["Done", "Illegal"])
+                    constants=dict(NULL, World="<- TraceWorld", Bumps=set(), MaxHist=0),
+                    invariants=["Done", "Illegal", "NameClash"])
     res = run_tlc("HistoriesTrace", cfg, sc, workers=1, env={"TRACE_FILE": str(f)}, allow_violation=False)
     got = sorted(parse_tla_tuple(x)[2] for x in res.raw_prints if x.startswith('<<"ILLEGAL"'))
+    if not any(x.startswith('<<"CLASH"') for x in res.raw_prints):
+        raise RuntimeError("self-test of HistoriesTrace.tla failed: the planted name clash m11 = m1 + 1 was not reported")
     if got != [3, 5, 6, 8]:
         raise RuntimeError(f"self-test of HistoriesTrace.tla failed: planted defects at events [3, 5, 6, 8], TLC reported {got}")
-    run.coverage["selftest_trace_spec"] = "4 planted defects (repeated id, failing import, double load, deviating observation) all rejected"
+    run.coverage["selftest_trace_spec"] = "5 planted defects (repeated id, name clash, failing import, double load, deviating observation) all rejected"
 
 
 def main() -> int:
